@@ -16,7 +16,8 @@ KINDS = ["foreign-wire", "foreign-wire-cfg", "static-as-value", "funcdefn-as-val
          "case-index-out-of-range", "case-twice", "ctx-exit-unbuilt", "cond-unbuilt-serialize",
          "mismatched-exit", "cfg-no-exit-serialize", "declared-mismatch", "func-no-outputs-serialize",
          "poly-missing-inst", "poly-arg-count", "dfg-no-outputs-serialize", "loop-no-outputs-serialize",
-         "tracked-untracked-index", "tracked-out-of-range-index", "rows-differ-in-type-arguments"]
+         "tracked-untracked-index", "tracked-out-of-range-index", "rows-differ-in-type-arguments",
+         "static-port-of-another-block"]
 META = {
     "level": "exploration",
     "rule": ("case = {program AST, injection kind, site}; distinct by JSON; non-trivial when the program has >= 6 "
@@ -120,7 +121,7 @@ def sites(prog):
 
 
 APPLICABLE = {
-    "region": ["foreign-wire", "foreign-wire-cfg", "static-as-value", "funcdefn-as-value", "int-arg",
+    "region": ["foreign-wire", "foreign-wire-cfg", "static-as-value", "static-port-of-another-block", "funcdefn-as-value", "int-arg",
                "call-non-function", "load-non-function", "incomplete-op-serialize"],
     "cond": ["case-outputs-disagree", "case-index-out-of-range", "case-twice", "ctx-exit-unbuilt",
              "cond-unbuilt-serialize"],
@@ -235,6 +236,21 @@ def make_interp(kind, site):
                     return
             c = b.add_const(val.TRUE, b.parent_node)
             expect(lambda: b.add_op(ops.Noop(), c.out(0)), ValueError, "add_op(const port)")
+
+        def inj_static_port_of_another_block(self, where, st, b=None, **kw):
+            # a constant that lives in ANOTHER block of the same CFG: the inter-block path of the Block builder must
+            # still refuse a port that carries no value
+            if where != "region" or not isinstance(b, Block):
+                return False
+            cfgn = b.hugr[b.parent_node].parent
+            others = [n for n in b.hugr.children(cfgn)
+                      if n != b.parent_node and _is(b.hugr, n, (ops.DataflowBlock,))]
+            if not others:
+                self.skipped = "no other block built yet"
+                return False
+            self.injected = True
+            c = b.hugr.add_const(val.TRUE, others[-1])
+            expect(lambda: b.add_op(ops.Noop(), c.out(0)), ValueError, "add_op(const port of another block)")
 
         def inj_funcdefn_as_value(self, where, st, b=None, **kw):
             if where != "region":
@@ -635,7 +651,8 @@ def run(ctx):
             continue
         where = [w for w, ks in APPLICABLE.items() if kind in ks]
         for attempt in range(12):
-            want_kind = {"mismatched-exit": "cfg", "cfg-no-exit-serialize": "cfg", "foreign-wire-cfg": "cfg"}.get(kind)
+            want_kind = {"mismatched-exit": "cfg", "cfg-no-exit-serialize": "cfg", "foreign-wire-cfg": "cfg",
+                         "static-port-of-another-block": "cfg"}.get(kind)
             p = gen_program(r, kind=want_kind if want_kind and r.random() < 0.5 else None, budget=30)
             ss = [s for s in sites(p) if s[0] in where]
             if kind in ("poly-missing-inst", "poly-arg-count"):
@@ -644,7 +661,7 @@ def run(ctx):
                 ss = [s for s in ss if s[3].get("declared")]
             # (func-no-outputs-serialize: also functions whose outputs were declared up front — their Output node is
             # still untyped when set_outputs was never called)
-            if kind == "foreign-wire-cfg":
+            if kind in ("foreign-wire-cfg", "static-port-of-another-block"):
                 ss = [s for s in ss if s[3].get("in_block")]
             if kind in ("case-outputs-disagree",):
                 ss = [s for s in ss if s[3].get("ncases", 0) >= 2]
